@@ -380,23 +380,24 @@ Theorem C02_rle_run_is_model_Select32R64 : forall ws sidx ridx i, words_ok ws ->
 Proof. exact lin_Select_is_Select32R64. Qed.
 Print Assumptions C02_rle_run_is_model_Select32R64.
 
-Theorem C02_rle_run_is_model_IndexSelect32 : forall ws,
+Theorem C02_rle_run_is_model_IndexSelect32 : forall ws, words_ok ws ->
   IndexSelect32 ws = Some (lin_IndexSelect32 ws).
 Proof. exact lin_IndexSelect32_is_model. Qed.
 Print Assumptions C02_rle_run_is_model_IndexSelect32.
 
 (** ... and the specification value; outside the domain the linear evaluator says so ([None], a tool error
     of the generator, never a verdict) *)
-Theorem C02_rle_run_is_spec : forall ws i, 0 <= i < zlen (all_ones ws) ->
+Theorem C02_rle_run_is_spec : forall ws i, words_ok ws -> 0 <= i < zlen (all_ones ws) ->
   lin_Select ws i = Some (spec_Select ws i).
 Proof. exact lin_Select_spec. Qed.
 Print Assumptions C02_rle_run_is_spec.
 
-Theorem C02_rle_run_domain : forall ws i, ~ (0 <= i < zlen (all_ones ws)) -> lin_Select ws i = None.
+Theorem C02_rle_run_domain : forall ws i, words_ok ws ->
+  ~ (0 <= i < zlen (all_ones ws)) -> lin_Select ws i = None.
 Proof. exact lin_Select_None. Qed.
 Print Assumptions C02_rle_run_domain.
 
-Theorem C02_rle_index_is_spec : forall ws, lin_IndexSelect32 ws = spec_IndexSelect32 ws.
+Theorem C02_rle_index_is_spec : forall ws, words_ok ws -> lin_IndexSelect32 ws = spec_IndexSelect32 ws.
 Proof. exact lin_IndexSelect32_spec. Qed.
 Print Assumptions C02_rle_index_is_spec.
 
